@@ -99,7 +99,9 @@ def judge(m, r, graph, trace, c, unique, ctx):
 def run_case(case):
     res = dict(n=0, st=0, tr=0, tv=0, nt=0, out=[], v=[], k=[])
     depth = 3 if (case.get("tier") == "thorough" or case.get("slice") == "hist-special") else 2
-    return ps.run(case, cfgs_for, judge, res, hist_cfgs=HIST, hist_depth=depth, uniques=(False, True))
+    # unique=True doubles the runs; in the quick tier it is exercised on the GENERIC alphabet and the named graphs
+    uq = (False, True) if (case.get("tier") == "thorough" or ps.pos_of(case) == "GENERIC") else (False,)
+    return ps.run(case, cfgs_for, judge, res, hist_cfgs=HIST, hist_depth=depth, uniques=uq)
 
 
 def describe(case):
